@@ -610,6 +610,9 @@ func checkHist(ca *checkArgs) int {
 		inconclusive("workload did not reach: %v", unreached)
 	}
 	if code == 0 {
+		if nm := keysWithPrefix(total.stats.C, "unexercised_new_method/"); len(nm) > 0 {
+			fmt.Printf("NOTE: exported methods that are not in the operation table were NOT exercised: %v\n", nm)
+		}
 		fmt.Printf("OK property=%s held on %d runs (%d steps) in %.1fs\n", ca.id, total.runs, total.stats.C["steps"], total.wall.Seconds())
 	}
 	return code
